@@ -14,6 +14,9 @@
   That LAPACK meets the two contracts is *not* proved; the harness checks them on every recorded
   result of a real call, and the model signal recomputed from them is compared with the real one.
   `euclid_is_C01_estimator` identifies the RDM computed here with C01's coded estimator.
+  Round 3: `factor_contract_reproduces` / `coded_signal_reproduces(_real)` close the loop from the
+  factor contracts alone (no hypothesis on the signals); `general_design_reproduces(_D)`,
+  `general_design_dataset` cover arbitrary design matrices (heights, rest rows, compound rows).
 -/
 import Mathlib.Analysis.Real.Sqrt
 import Mathlib.Tactic.IntervalCases
@@ -66,7 +69,7 @@ theorem make_signal_exact (nCond nCh : Nat) (hch : nCond ≤ nCh) (z cholG G : M
   intro a b ha hb
   have hw : genWidth nCond nCh = nCh := by unfold genWidth Rsa.Gen.C18.genWidth; split <;> omega
   unfold makeSignal
-  simp only [hw, if_true]
+  simp only [hw, if_true, mmulBy_signalMix]
   rw [gramRows_mmul_orthogonal nCond nCh a b cholG _ (nCh : K) hW, hG a b ha hb]
 
 /-- **exact signal ⇒ the squared-Euclidean RDM by condition is `signal · D`.**
@@ -96,7 +99,7 @@ theorem exact_signal_reproduces (nCond nCh nObs : Nat) (cv uniq : Nat → Nat) (
     apply condMean_const nObs cv uniq _ i c _ (hocc i hi)
     intro o _ hoc
     unfold dataOf
-    rw [indicator_mmul nCond cv uniq U o i c hi hinj hoc, noiseTerm_zero]
+    rw [mmulBy_design, indicator_mmul nCond cv uniq U o i c hi hinj hoc, noiseTerm_zero]
     simp [Rsa.Gen.C18.dataEntry]
   unfold euclidRdm
   have e1 : ∀ p q, p < nCond → q < nCond →
@@ -117,6 +120,102 @@ theorem exact_signal_reproduces (nCond nCh nObs : Nat) (cv uniq : Nat → Nat) (
   push_cast
   rw [← hg]
   field_simp
+
+/-! ### general design matrices (regressor heights, rest rows, compound rows) -/
+
+/-- **any design matrix.**  Zero noise, any `Z` (`n_obs × n_cond`: heights other than 1, all-zero
+    rest rows, rows with several non-zero entries), any signal with `U Uᵀ = n_channel·G`: the
+    squared-Euclidean RDM between the observations (one pattern per row, as `calc_rdm` computes it:
+    Gram form divided by the channel count) is `signal · (z_o − z_o')ᵀ G (z_o − z_o')` — the data
+    rows are exactly `√signal · Z U` (depends on `dataEntry`, `noiseScale`, C01's `euclidEntry`,
+    `euclidNorm`). -/
+theorem general_design_reproduces (nCond nCh nObs : Nat) (Z G U z : Mat K) (s r : K)
+    (cholC cholT : Option (Mat K)) (hch : nCh ≠ 0) (hr : r * r = s)
+    (hU : ∀ a b, a < nCond → b < nCond → gramRows nCh U a b = (nCh : K) * G a b) :
+    ∀ o o', o < nObs → o' < nObs →
+      euclidRdm nCh (condMean nObs id id
+        (dataOf nCond Z U r (noiseTerm nObs nCh z 0 cholC cholT))) o o'
+        = designRdmSpec nCond Z G s o o' := by
+  intro o o' ho ho'
+  have hc : (nCh : K) ≠ 0 := Nat.cast_ne_zero.mpr hch
+  have hmean : ∀ i, i < nObs → ∀ c,
+      condMean nObs id id (dataOf nCond Z U r (noiseTerm nObs nCh z 0 cholC cholT)) i c
+        = mmul nCond Z U i c * r := by
+    intro i hi c
+    apply condMean_const nObs id id _ i c _ ⟨i, hi, rfl⟩
+    intro o' _ hoc
+    have : o' = i := hoc
+    subst this
+    unfold dataOf
+    rw [noiseTerm_zero, mmulBy_design]
+    simp [Rsa.Gen.C18.dataEntry]
+  rw [euclidRdm_eq_spec]
+  unfold euclidSpec designRdmSpec
+  have hdiff : ∀ c, condMean nObs id id (dataOf nCond Z U r (noiseTerm nObs nCh z 0 cholC cholT)) o c
+        - condMean nObs id id (dataOf nCond Z U r (noiseTerm nObs nCh z 0 cholC cholT)) o' c
+      = r * mmul nCond (fun _ a => Z o a - Z o' a) U 0 c := by
+    intro c
+    rw [hmean o ho, hmean o' ho']
+    unfold mmul
+    simp only [sumTo_eq]
+    rw [← sub_mul, ← Finset.sum_sub_distrib, mul_comm]
+    congr 1
+    exact Finset.sum_congr rfl (fun l _ => by ring)
+  have hsum : sumTo nCh (fun c =>
+        (r * mmul nCond (fun _ a => Z o a - Z o' a) U 0 c)
+          * (r * mmul nCond (fun _ a => Z o a - Z o' a) U 0 c))
+      = s * gramRows nCh (mmul nCond (fun _ a => Z o a - Z o' a) U) 0 0 := by
+    unfold gramRows
+    simp only [sumTo_eq, Finset.mul_sum]
+    refine Finset.sum_congr rfl (fun c _ => ?_)
+    rw [← hr]; ring
+  simp only [hdiff, hsum]
+  rw [gramRows_mmul]
+  have hq : sumTo nCond (fun a => sumTo nCond (fun b =>
+        (Z o a - Z o' a) * (Z o b - Z o' b) * gramRows nCh U a b))
+      = (nCh : K) * sumTo nCond (fun a => sumTo nCond (fun b =>
+        (Z o a - Z o' a) * (Z o b - Z o' b) * G a b)) := by
+    have : ∀ a, a < nCond → sumTo nCond (fun b =>
+          (Z o a - Z o' a) * (Z o b - Z o' b) * gramRows nCh U a b)
+        = (nCh : K) * sumTo nCond (fun b => (Z o a - Z o' a) * (Z o b - Z o' b) * G a b) := by
+      intro a ha
+      rw [sumTo_eq, sumTo_eq, Finset.mul_sum]
+      refine Finset.sum_congr rfl (fun b hb => ?_)
+      rw [hU a b ha (Finset.mem_range.mp hb)]; ring
+    rw [sumTo_congr nCond _ _ this, sumTo_eq, sumTo_eq, Finset.mul_sum]
+  rw [hq]
+  field_simp
+
+/-- the same in terms of the model RDM: for two design rows with equal sums (e.g. any two rows of an
+    indicator design, or of a design with the same total height) and `G = −½ H D H`, the distance
+    between the observations is `−½ · signal · (z_o − z_o')ᵀ D (z_o − z_o')` -/
+theorem general_design_reproduces_D (nCond nCh nObs : Nat) (Z D U z : Mat K) (s r : K)
+    (cholC cholT : Option (Mat K)) (hch : nCh ≠ 0) (hr : r * r = s)
+    (hU : ∀ a b, a < nCond → b < nCond →
+      gramRows nCh U a b = (nCh : K) * gramOfRdm nCond D a b) :
+    ∀ o o', o < nObs → o' < nObs → sumTo nCond (fun a => Z o a) = sumTo nCond (fun a => Z o' a) →
+      euclidRdm nCh (condMean nObs id id
+        (dataOf nCond Z U r (noiseTerm nObs nCh z 0 cholC cholT))) o o'
+        = designRdmSpecD nCond Z D s o o' := by
+  intro o o' ho ho' hrow
+  rw [general_design_reproduces nCond nCh nObs Z (gramOfRdm nCond D) U z s r cholC cholT hch hr hU
+    o o' ho ho']
+  unfold designRdmSpec designRdmSpecD
+  rw [quadform_gram nCond (fun a => Z o a - Z o' a) D]
+  rw [sumTo_eq, Finset.sum_sub_distrib, ← sumTo_eq, ← sumTo_eq, hrow, sub_self]
+
+-- non-vacuity: 2 conditions at distance² 4 (G = [[1,-1],[-1,1]]), 2 channels, U = √2·[[1,0],[-1,0]]
+-- does not fit ℚ; take U = [[1,1],[-1,-1]] (U Uᵀ = 2·G).  Design with a height-2 row, a rest row
+-- and a compound row.
+example : euclidRdm 2 (condMean 3 id id (dataOf 2 (ofLists [[2, 0], [0, 0], [1, 1]])
+      (ofLists [[1, 1], [-1, -1]]) (3 : ℚ) (noiseTerm 3 2 (fun _ _ => 7) 0 none none))) 0 1
+    = designRdmSpec 2 (ofLists [[2, 0], [0, 0], [1, 1]]) (ofLists [[1, -1], [-1, 1]]) 9 0 1 :=
+  general_design_reproduces 2 2 3 _ _ _ _ 9 3 none none (by decide) (by norm_num)
+    (by intro a b ha hb; interval_cases a <;> interval_cases b <;> decide +kernel) 0 1
+    (by decide) (by decide)
+
+example : designRdmSpec 2 (ofLists [[2, 0], [0, 0], [1, 1]]) (ofLists [[1, -1], [-1, 1]]) (9 : ℚ) 0 1
+    = 36 := by decide +kernel
 
 /-! ### the repaired `make_signal` as coded: QR for the whitening, eigh for the factor of G -/
 
@@ -240,7 +339,7 @@ theorem simulated_rdm_eq_model (p : Params K) (cv : List Nat) (v : List K)
     apply sumTo_congr
     intro o ho
     unfold dataOf
-    rw [hZ o ho c]
+    rw [mmulBy_design, mmulBy_design, hZ o ho c]
     rfl
   have hmain := exact_signal_reproduces p.nCond p.nCh cv.length (fun o => cv.getD o 0)
     (fun i => (uniqueSorted cv).getD i 0) (squareform p.nCond v)
@@ -275,6 +374,73 @@ theorem simulated_rdm_eq_model_C01 (p : Params K) (cv : List Nat) (v : List K)
   have h := simulated_rdm_eq_model p cv v signals noises hcond hch hs hn hU ds hds
   unfold rdmByCondition at h
   simpa only [hcond] using h
+
+/-! ### reproduction from the factor contracts alone (no hypothesis on the signals) -/
+
+/-- **any factor of `G` reproduces the model RDM.**  `make_dataset` with the exact-signal option
+    as one list-level function: the signals are *computed* by `makeSignal` from arbitrary draws
+    `zs i`, with any square factor `F` (`n_cond × n_cond`, `F Fᵀ = G = −½ H D H` — the eigh-based
+    factor of the code, a Cholesky, a pivoted LDLᵀ, …) and any orthonormalisation step whose rows
+    are orthogonal with squared norm `n_channel` (QR, Gram–Schmidt, …).  With zero noise and
+    `n_channel ≥ n_cond`, every simulated dataset's RDM by condition is `signal · D`; nothing is
+    assumed about the signals themselves. -/
+theorem factor_contract_reproduces (p : Params K) (cv : List Nat) (v : List K) (F : Mat K)
+    (zs noises : Nat → Mat K) (whiten : Nat → Mat K → Mat K)
+    (hcond : (uniqueSorted cv).length = p.nCond) (hle : p.nCond ≤ p.nCh) (hch : p.nCh ≠ 0)
+    (hs : HasSqrt.sqrt p.signal * HasSqrt.sqrt p.signal = p.signal)
+    (hn : HasSqrt.sqrt p.noise = 0)
+    (hF : ∀ a b, a < p.nCond → b < p.nCond →
+      gramRows p.nCond F a b = gramOfRdm p.nCond (squareform p.nCond v) a b)
+    (hW : ∀ i, i < nSignalCalls p.same p.nSim → ∀ a b, a < p.nCond → b < p.nCond →
+      gramRows p.nCh (whiten i (rowCenter p.nCh (zs i))) a b = if a = b then (p.nCh : K) else 0) :
+    ∀ ds ∈ makeDatasets p (.vec cv)
+        (fun i => makeSignal p.nCond p.nCh true (zs i) (whiten i) F none) noises,
+      rdmByCondition ds.nObs ds.nCh cv ds.data
+        = (Rsa.pairs p.nCond).map (fun q => p.signal * squareform p.nCond v q.1 q.2) :=
+  simulated_rdm_eq_model p cv v _ noises hcond hch hs hn
+    (fun i hi => make_signal_exact p.nCond p.nCh hle (zs i) F _ (whiten i) hF (hW i hi))
+
+/-- the same with the factor steps *as coded* (`Qᵀ·√n_channel`, `eigvec·√clamp(eigval)`): from the
+    contracts of the two LAPACK calls alone (orthonormal columns of each `Q`; `G = V diag(w) Vᵀ`;
+    no eigenvalue negative or clamped away) every simulated dataset reproduces `signal · D` -/
+theorem coded_signal_reproduces (p : Params K) (cv : List Nat) (v : List K) (V : Mat K)
+    (w : Nat → K) (zs qs noises : Nat → Mat K)
+    (hcond : (uniqueSorted cv).length = p.nCond) (hle : p.nCond ≤ p.nCh) (hch : p.nCh ≠ 0)
+    (hs : HasSqrt.sqrt p.signal * HasSqrt.sqrt p.signal = p.signal)
+    (hn : HasSqrt.sqrt p.noise = 0)
+    (hsn : HasSqrt.sqrt (p.nCh : K) * HasSqrt.sqrt (p.nCh : K) = (p.nCh : K))
+    (hQ : ∀ i, i < nSignalCalls p.same p.nSim → ∀ a b, a < p.nCond → b < p.nCond →
+      sumTo p.nCh (fun c => qs i c a * qs i c b) = if a = b then 1 else 0)
+    (hV : ∀ a b, a < p.nCond → b < p.nCond →
+      sumTo p.nCond (fun j => V a j * w j * V b j) = gramOfRdm p.nCond (squareform p.nCond v) a b)
+    (hw : ∀ j, j < p.nCond → Rsa.Gen.C18.eigClamp (w j) = w j ∧
+      HasSqrt.sqrt (w j) * HasSqrt.sqrt (w j) = w j) :
+    ∀ ds ∈ makeDatasets p (.vec cv)
+        (fun i => makeSignalCoded p.nCond p.nCh true (zs i) (qs i) w V none) noises,
+      rdmByCondition ds.nObs ds.nCh cv ds.data
+        = (Rsa.pairs p.nCond).map (fun q => p.signal * squareform p.nCond v q.1 q.2) :=
+  simulated_rdm_eq_model p cv v _ noises hcond hch hs hn
+    (fun i hi => make_signal_exact_coded p.nCond p.nCh hle (zs i) (qs i) V _ w hsn (hQ i hi) hV hw)
+
+/-- general design matrix on the list-level model: every dataset of `make_dataset` called with
+    an explicit design matrix (any rows), exact signals and zero noise has, between any two
+    observations, the squared distance `signal · (z_o − z_o')ᵀ G (z_o − z_o')` -/
+theorem general_design_dataset (p : Params K) (rows : List (List K)) (G : Mat K)
+    (signals noises : Nat → Mat K) (hch : p.nCh ≠ 0)
+    (hs : HasSqrt.sqrt p.signal * HasSqrt.sqrt p.signal = p.signal)
+    (hn : HasSqrt.sqrt p.noise = 0)
+    (hU : ∀ i, i < nSignalCalls p.same p.nSim → ∀ a b, a < p.nCond → b < p.nCond →
+      gramRows p.nCh (signals i) a b = (p.nCh : K) * G a b) :
+    ∀ ds ∈ makeDatasets p (.design rows) signals noises, ∀ o o', o < ds.nObs → o' < ds.nObs →
+      euclidRdm ds.nCh (condMean ds.nObs id id ds.data) o o'
+        = designRdmSpec p.nCond (ofLists rows) G p.signal o o' := by
+  intro ds hds o o' ho ho'
+  obtain ⟨k, hk', rfl⟩ := mem_makeDatasets p _ signals noises ds hds
+  have hidx : signalIndex p.same k < nSignalCalls p.same p.nSim := by
+    unfold signalIndex nSignalCalls; split <;> omega
+  simp only [simDataset, hn] at ho ho' ⊢
+  exact general_design_reproduces p.nCond p.nCh _ (ofLists rows) G _ (noises k) p.signal
+    (HasSqrt.sqrt p.signal) p.cholC p.cholT hch hs (hU _ hidx) o o' ho ho'
 
 /-! ### descriptors -/
 
@@ -366,6 +532,131 @@ theorem real_sqrt_contracts (s : ℝ) (hs : 0 ≤ s) :
     Real.sqrt s * Real.sqrt s = s ∧ Real.sqrt 0 = 0 :=
   ⟨Real.mul_self_sqrt hs, Real.sqrt_zero⟩
 
+/-- every row of the centred draw sums to zero: `n_cond` centred rows span at most
+    `n_channel − 1` dimensions, so for `n_channel = n_cond` they are linearly dependent and the
+    orthonormalisation has to complete the basis (Householder QR does; the driver's own
+    Gram–Schmidt instance completes with a standard basis vector) -/
+theorem row_center_sums_zero (w : Nat) (hw : w ≠ 0) (U : Mat K) (i : Nat) :
+    sumTo w (fun c => rowCenter w U i c) = 0 := by
+  have hc : (w : K) ≠ 0 := Nat.cast_ne_zero.mpr hw
+  simp only [rowCenter_apply, sumTo_eq, Finset.sum_sub_distrib, Finset.sum_const, Finset.card_range,
+    nsmul_eq_mul]
+  field_simp
+  ring
+
+/-- shapes of the uniform draws: `(n_obs, n_channel)` for the noise of one simulation,
+    `(n_cond, max n_cond n_channel)` for one signal (regenerated from the two `size=` arguments) -/
+theorem draw_shapes (nObs nCond nCh : Nat) :
+    noiseDrawShape nObs nCh = (nObs, nCh) ∧ signalDrawShape nCond nCh = (nCond, max nCond nCh) := by
+  refine ⟨rfl, ?_⟩
+  unfold signalDrawShape genWidth Rsa.Gen.C18.genWidth Rsa.Gen.C18.signalDrawRows
+    Rsa.Gen.C18.signalDrawCols
+  split <;> simp <;> omega
+
+/-! ### over the reals: the square-root contracts are theorems, the clamp is harmless -/
+
+section real
+
+/-- the real square root as the model's `sqrt` (local to this section) -/
+noncomputable local instance realSqrt : HasSqrt ℝ := ⟨Real.sqrt⟩
+
+/-- the clamp `eigval[eigval < 1e-15] = 0` never returns a negative number … -/
+theorem eig_clamp_nonneg (x : ℝ) : 0 ≤ Rsa.Gen.C18.eigClamp x := by
+  unfold Rsa.Gen.C18.eigClamp
+  push_cast
+  split
+  · exact le_refl _
+  · rename_i h; exact le_trans (by norm_num) (not_lt.mp h)
+
+/-- … and moves a non-negative eigenvalue by less than `1e-15` -/
+theorem eig_clamp_error (x : ℝ) (hx : 0 ≤ x) :
+    Rsa.Gen.C18.eigClamp x ≤ x ∧ x - 1 / 1000000000000000 < Rsa.Gen.C18.eigClamp x := by
+  unfold Rsa.Gen.C18.eigClamp
+  push_cast
+  split
+  · rename_i h; exact ⟨hx, by linarith⟩
+  · exact ⟨le_refl _, by norm_num⟩
+
+/-- **the coded factor, unconditionally**: over ℝ, for *every* result `(w, V)` of `eigh`,
+    `chol_G chol_Gᵀ = V diag(clamp w) Vᵀ` — the factor of the code is an exact factor of the
+    clamped reconstruction (no hypothesis on signs or sizes of the eigenvalues: negative ones, i.e. a
+    model RDM that is not Euclidean-embeddable, are projected away) -/
+theorem chol_eigh_gram_real (n a b : Nat) (w : Nat → ℝ) (V : Mat ℝ) :
+    gramRows n (cholEigh w V) a b
+      = sumTo n (fun j => V a j * Rsa.Gen.C18.eigClamp (w j) * V b j) := by
+  unfold gramRows cholEigh
+  apply sumTo_congr
+  intro j _
+  have h := Real.mul_self_sqrt (eig_clamp_nonneg (w j))
+  show V a j * Real.sqrt _ * (V b j * Real.sqrt _) = _
+  calc V a j * Real.sqrt (Rsa.Gen.C18.eigClamp (w j)) * (V b j * Real.sqrt (Rsa.Gen.C18.eigClamp (w j)))
+      = V a j * (Real.sqrt (Rsa.Gen.C18.eigClamp (w j)) * Real.sqrt (Rsa.Gen.C18.eigClamp (w j)))
+          * V b j := by ring
+    _ = _ := by rw [h]
+
+/-- **reproduction over the reals from the LAPACK contracts alone.**  Real square root, any
+    signal strength `≥ 0`, zero noise variance, `n_channel ≥ n_cond ≥ 1`: if every `Q` has
+    orthonormal columns and `G = V diag(w) Vᵀ` with every eigenvalue `0` or `≥ 1e-15`
+    (Euclidean-embeddable model RDM), every simulated dataset's RDM by condition is `signal · D`. -/
+theorem coded_signal_reproduces_real (p : Params ℝ) (cv : List Nat) (v : List ℝ) (V : Mat ℝ)
+    (w : Nat → ℝ) (zs qs noises : Nat → Mat ℝ)
+    (hcond : (uniqueSorted cv).length = p.nCond) (hle : p.nCond ≤ p.nCh) (hch : p.nCh ≠ 0)
+    (hs : 0 ≤ p.signal) (hn : p.noise = 0)
+    (hQ : ∀ i, i < nSignalCalls p.same p.nSim → ∀ a b, a < p.nCond → b < p.nCond →
+      sumTo p.nCh (fun c => qs i c a * qs i c b) = if a = b then 1 else 0)
+    (hV : ∀ a b, a < p.nCond → b < p.nCond →
+      sumTo p.nCond (fun j => V a j * w j * V b j) = gramOfRdm p.nCond (squareform p.nCond v) a b)
+    (hw : ∀ j, j < p.nCond → w j = 0 ∨ (1 : ℝ) / 1000000000000000 ≤ w j) :
+    ∀ ds ∈ makeDatasets p (.vec cv)
+        (fun i => makeSignalCoded p.nCond p.nCh true (zs i) (qs i) w V none) noises,
+      rdmByCondition ds.nObs ds.nCh cv ds.data
+        = (Rsa.pairs p.nCond).map (fun q => p.signal * squareform p.nCond v q.1 q.2) := by
+  apply coded_signal_reproduces p cv v V w zs qs noises hcond hle hch
+  · exact Real.mul_self_sqrt hs
+  · show Real.sqrt p.noise = 0
+    rw [hn]; exact Real.sqrt_zero
+  · exact Real.mul_self_sqrt (Nat.cast_nonneg _)
+  · exact hQ
+  · exact hV
+  · intro j hj
+    refine ⟨eig_clamp_threshold (w j) (hw j hj), ?_⟩
+    apply Real.mul_self_sqrt
+    rcases hw j hj with h | h
+    · rw [h]
+    · exact le_trans (by norm_num) h
+
+-- non-vacuity over ℝ: 2 conditions at squared distance 4 (G = [[1,−1],[−1,1]] = v vᵀ with
+-- v = (1,−1): "eigenvalues" (1, 0), one exactly zero), 2 channels (n_channel = n_cond), Q = I
+example : ∀ ds ∈ makeDatasets (α := ℝ)
+      { nCond := 2, nCh := 2, nSim := 1, signal := 4, noise := 0 } (.vec [0, 1])
+      (fun i => makeSignalCoded 2 2 true (fun _ _ => 3) (fun c a => if c = a then 1 else 0)
+        (fun j => if j = 0 then 1 else 0)
+        (fun i j => if j = 0 then (if i = 0 then 1 else -1) else 0) none) (fun _ _ _ => 5),
+    rdmByCondition ds.nObs ds.nCh [0, 1] ds.data
+      = (Rsa.pairs 2).map (fun q => (4 : ℝ) * squareform 2 [4] q.1 q.2) := by
+  apply coded_signal_reproduces_real
+    { nCond := 2, nCh := 2, nSim := 1, signal := 4, noise := 0 } [0, 1] [4]
+  · decide
+  · decide
+  · decide
+  · norm_num
+  · rfl
+  · intro i _ a b ha hb
+    interval_cases a <;> interval_cases b <;> simp [sumTo_eq, Finset.sum_range_succ]
+  · intro a b ha hb
+    show _ = gramOfRdm 2 (squareform 2 [4]) a b
+    unfold gramOfRdm
+    rw [hdh_entry 2 a b ha hb]
+    interval_cases a <;> interval_cases b <;>
+      simp [sumTo_eq, Finset.sum_range_succ, squareform, Rsa.vecToMat, Rsa.triIdx,
+        Rsa.Gen.C18.gScale] <;> norm_num
+  · intro j hj
+    interval_cases j
+    · right; norm_num
+    · left; simp
+
+end real
+
 /-! ### design vectors -/
 
 /-- `make_design(n_cond, n_part)`: both vectors have `n_part · n_cond` entries and every
@@ -444,7 +735,7 @@ theorem design_matrix_same_data [HasSqrt K] (p : Params K) (cv : List Nat)
     intro l hl
     show indicator cv o l * _ = ofLists _ o l * _
     rw [ofLists_toLists _ _ _ _ _ ho hl]
-  simp only [simDataset, dataOf, hn, hz]
+  simp only [simDataset, dataOf, hn, mmulBy_design, hz]
 
 /-! ### non-vacuity: concrete objects meeting the hypotheses above
     (3 conditions at the points 0, 1, 3 of a line, 4 channels, 2 partitions) -/
@@ -488,6 +779,20 @@ example : ∀ ds ∈ makeDatasets (α := ℚ)
   simulated_rdm_eq_model (K := ℚ) { nCond := 3, nCh := 4, nSim := 2, signal := 4, noise := 0 }
     (condVec 3 2) [1, 9, 4] (fun _ => exU) (fun _ => exW) (by decide +kernel) (by decide)
     (by decide +kernel) (by decide +kernel)
+    (by intro i _ a b ha hb; interval_cases a <;> interval_cases b <;> decide +kernel)
+
+-- `factor_contract_reproduces`: the factor `exC` of G and the Hadamard whitening meet the contracts
+example : ∀ ds ∈ makeDatasets (α := ℚ)
+      { nCond := 3, nCh := 4, nSim := 2, signal := 4, noise := 0, same := true }
+      (.vec (condVec 3 2)) (fun i => makeSignal 3 4 true (fun _ _ => (i : ℚ)) (fun _ => exW) exC none)
+      (fun _ => exW),
+    rdmByCondition ds.nObs ds.nCh (condVec 3 2) ds.data
+      = (Rsa.pairs 3).map (fun q => (4 : ℚ) * squareform 3 [1, 9, 4] q.1 q.2) :=
+  factor_contract_reproduces (K := ℚ)
+    { nCond := 3, nCh := 4, nSim := 2, signal := 4, noise := 0, same := true }
+    (condVec 3 2) [1, 9, 4] exC (fun i => fun _ _ => (i : ℚ)) (fun _ => exW) (fun _ _ => exW)
+    (by decide +kernel) (by decide) (by decide) (by decide +kernel) (by decide +kernel)
+    (by intro a b ha hb; interval_cases a <;> interval_cases b <;> decide +kernel)
     (by intro i _ a b ha hb; interval_cases a <;> interval_cases b <;> decide +kernel)
 
 end examples
